@@ -397,4 +397,60 @@ theorem topoRank_sound {edges : List (Nat × Nat)} {r : Nat → Nat} (h : topoRa
     exact isRanking_sound hr
   · exact absurd h (by simp)
 
+/-! ### a concrete system satisfying the hypotheses of the rank theorem (non-vacuity) -/
+
+def nvA : Prog := [.acq 0, .acq 1, .rel 1, .rel 0]
+def nvB : Prog := [.acq 1, .rel 1]
+def nvSys : Sys := ⟨2, fun t => if t = 0 then nvA else nvB⟩
+
+theorem nvA_balanced : Balanced nvA := by
+  constructor
+  · intro k l h
+    have hk : k < nvA.length := by
+      apply Nat.lt_of_not_le; intro hle
+      rw [List.getElem?_eq_none_iff.mpr hle] at h; simp at h
+    simp only [nvA, List.length] at hk
+    have : k = 0 ∨ k = 1 ∨ k = 2 ∨ k = 3 := by omega
+    rcases this with rfl | rfl | rfl | rfl <;> simp [nvA] at h <;> subst h <;> decide
+  · intro l
+    by_cases h0 : l = 0 <;> by_cases h1 : l = 1 <;> simp [nvA, heldAt, applyAct, upd, h0, h1]
+
+theorem nvB_balanced : Balanced nvB := by
+  constructor
+  · intro k l h
+    have hk : k < nvB.length := by
+      apply Nat.lt_of_not_le; intro hle
+      rw [List.getElem?_eq_none_iff.mpr hle] at h; simp at h
+    simp only [nvB, List.length] at hk
+    have : k = 0 ∨ k = 1 := by omega
+    rcases this with rfl | rfl <;> simp [nvB] at h <;> subst h <;> decide
+  · intro l
+    by_cases h1 : l = 1 <;> simp [nvB, heldAt, applyAct, upd, h1]
+
+theorem nv_disciplined : RankDisciplined nvSys (fun l => l) := by
+  intro t k x ht hna z hz
+  have ht' : t = 0 ∨ t = 1 := by have : t < 2 := ht; omega
+  obtain ⟨hact, _⟩ := hna
+  rcases ht' with rfl | rfl
+  · have hk : k < nvA.length := by
+      apply Nat.lt_of_not_le; intro hle
+      have : (nvSys.prog 0)[k]? = none := List.getElem?_eq_none_iff.mpr hle
+      rw [this] at hact; simp at hact
+    simp only [nvA, List.length] at hk
+    have : k = 0 ∨ k = 1 ∨ k = 2 ∨ k = 3 := by omega
+    rcases this with rfl | rfl | rfl | rfl <;> simp [nvSys, nvA] at hact
+    · subst hact; simp [nvSys, nvA, heldAt] at hz
+    · subst hact
+      by_cases h0 : z = 0
+      · subst h0; decide
+      · simp [nvSys, nvA, heldAt, applyAct, upd, h0] at hz
+  · have hk : k < nvB.length := by
+      apply Nat.lt_of_not_le; intro hle
+      have : (nvSys.prog 1)[k]? = none := List.getElem?_eq_none_iff.mpr hle
+      rw [this] at hact; simp at hact
+    simp only [nvB, List.length] at hk
+    have : k = 0 ∨ k = 1 := by omega
+    rcases this with rfl | rfl <;> simp [nvSys, nvB] at hact
+    subst hact; simp [nvSys, nvB, heldAt] at hz
+
 end Bobo.Locks
